@@ -60,6 +60,7 @@ package bcl
 //@   ensures [C11] reader_cancelled_iff_parse_failed: g.ev_close_done == ((g.ev_sent_perr != nil) ? 1 : 0)
 //@   ensures [C11] reports_the_parser_verdict: g.ev_sent_perr == g.parsed_err
 //@   assert [C11] parses_the_chunk_channel_once: at parseWithOpts#1: true
+//@   ensures [C11,C12] leaves_the_input_to_the_reader: g.closes == old(g.closes) && g.reads == old(g.reads)
 //
 //@ func ParseFile
 //@   requires input_given: f != nil
